@@ -272,6 +272,26 @@ Fixpoint loadable (n : node) : bool :=
 (* what Node.load gives for a file holding [n]: nothing when re-forging a link raises *)
 Definition load_file (n : node) : option node := if loadable n then Some (load n) else None.
 
+(* ---- the recovery file on disk: PickleStorage._save / _load --------------------------------------
+   A save first tries plain pickle (.pckl) and falls back to cloudpickle (.cpckl); a successful save of
+   one flavour unlinks the file of the other flavour; a failed pickle attempt leaves nothing behind.  A
+   load looks for .pckl first.  Plain pickle fails iff some channel holds a value it cannot handle: here
+   the function of a leaf with k >= 1000 returns its number wrapped in a closure (consumers unwrap it),
+   so the image needs cloudpickle iff such a leaf holds an output. *)
+Definition is_clo (k : Z) : bool := (1000 <=? k)%Z.
+Fixpoint needs_cloud (n : node) : bool :=
+  match n with
+  | Leaf k _ st => is_clo k && is_some (outv st)
+  | Macro _ _ _ kids => existsb needs_cloud kids
+  end.
+Record store := { f_pckl : option node; f_cpckl : option node }.
+Definition store0 : store := {| f_pckl := None; f_cpckl := None |}.
+Definition store_save (s : store) (img : node) : store :=
+  if needs_cloud img then {| f_pckl := None; f_cpckl := Some img |}
+  else {| f_pckl := Some img; f_cpckl := None |}.
+Definition store_read (s : store) : option node :=
+  match f_pckl s with Some i => Some i | None => f_cpckl s end.
+
 (* the graph with every cause removed from the start (the uninterrupted twin) *)
 Fixpoint fixall (fixv : Z -> Z) (n : node) : node :=
   match n with
@@ -333,23 +353,25 @@ Definition obs_res (r : vres) : obs :=
   | RExc ELocked => OS "RuntimeError" | RExc EChild => OS "FailedChildError"
   end.
 
-(* one attempt after another: verdict, calls, places where a recovery file was written, the graph in
-   memory, the graph loaded from the recovery file; then fix, clear, run again *)
-Fixpoint rounds (fixv : Z -> Z) (fuel : nat) (t : node) : list obs :=
+(* one attempt after another IN ONE DIRECTORY: verdict, calls, the recovery files present afterwards,
+   the graph in memory, the graph loaded from `recovery`; then fix, clear, run again *)
+Definition obs_store (s : store) : obs :=
+  OL ((if is_some (f_cpckl s) then [OL [obs_path []; OS "cpckl"]] else []) ++
+      (if is_some (f_pckl s) then [OL [obs_path []; OS "pckl"]] else [])).
+Fixpoint rounds (fixv : Z -> Z) (fuel : nat) (s : store) (t : node) : list obs :=
   match fuel with
   | O => []
   | S fuel' =>
       let '(t1, evs, r) := attempt None t in
-      match saves evs with
-      | (_, img) :: _ =>
+      let s' := fold_left (fun acc x => store_save acc (snd x)) (saves evs) s in
+      let row := [obs_res r; OL (map obs_path (calls evs)); obs_store s'; obs_node t1] in
+      match r, store_read s' with
+      | RExc _, Some img =>
           match load_file img with
-          | Some l =>
-            OL [obs_res r; OL (map obs_path (calls evs)); OL (map (fun x => obs_path (fst x)) (saves evs));
-                obs_node t1; obs_node l] :: rounds fixv fuel' (recover fixv l)
-          | None => [OL [obs_res r; OL (map obs_path (calls evs)); OL (map (fun x => obs_path (fst x)) (saves evs));
-                         obs_node t1; OS "unloadable"]]
+          | Some l => OL (row ++ [obs_node l]) :: rounds fixv fuel' s' (recover fixv l)
+          | None => [OL (row ++ [OS "unloadable"])]
           end
-      | [] => [OL [obs_res r; OL (map obs_path (calls evs)); OL []; obs_node t1]]
+      | _, _ => [OL row]
       end
   end.
 
@@ -357,7 +379,7 @@ Definition twin (fixv : Z -> Z) (t : node) : obs :=
   let '(t1, evs, r) := attempt None (fixall fixv t) in OL [obs_res r; obs_node t1].
 
 Definition obs_fail (fuel : nat) (t : node) : obs :=
-  OL [OL (rounds Z.opp fuel t); twin Z.opp t].
+  OL [OL (rounds Z.opp fuel store0 t); twin Z.opp t].
 
 Definition obs_ckpt (fuel : nat) (pr : proto) (c : path) (t : node) : obs :=
   let '(t1, evs, r) := attempt (Some c) t in
@@ -365,7 +387,7 @@ Definition obs_ckpt (fuel : nat) (pr : proto) (c : path) (t : node) : obs :=
   | RCut =>
       match load_file t1 with
       | Some l => OL [OS "cut"; OL (map obs_path (calls evs)); obs_node l;
-                      OL (rounds Z.opp fuel (apply_proto pr (recover Z.opp l))); twin Z.opp t]
+                      OL (rounds Z.opp fuel store0 (apply_proto pr (recover Z.opp l))); twin Z.opp t]
       | None => OL [OS "cut"; OL (map obs_path (calls evs)); OS "unloadable"]
       end
   | _ => OL [OS "nocut"; obs_res r]
